@@ -21,7 +21,7 @@ from pyjelly.integrations.rdflib import serialize as rser  # noqa: E402
 ID = "C12"
 LEVEL = "exploration"
 RULE = ("a fixed, seed-derived set of workloads (serializers of both integrations on caller-defined statement sequences: "
-        "stream_frames and flat_stream_to_frames over Triple/Quad/GraphStream, sinks/stores with ordered namespace bindings, sharing SerializerOptions/LookupPreset objects; "
+        "stream_frames and flat_stream_to_frames over Triple/Quad/GraphStream, the per-statement stream.triple/quad/graph API, sinks/stores with ordered namespace bindings, sharing SerializerOptions/LookupPreset objects; "
         "parsers: parse_jelly_flat and parse_jelly_grouped of both integrations) is first run solo in FRESH subprocesses under "
         "PYTHONHASHSEED 0, 1.., and 'random' - all digests must agree. Then, in one process, each workload's bytes/events must "
         "equal that reference when (a) other streams were created and half-used before, (b) 2-6 workload generators are stepped "
@@ -47,7 +47,7 @@ MANIFEST = {
     "technique": "runtime monitoring: differential output comparison across process histories, generator interleavings, threads (yield injection) and hash seeds",
 }
 
-N_WORKLOADS = 40
+N_WORKLOADS = 48
 
 
 def plan(tier: str) -> dict:
@@ -69,9 +69,9 @@ def shared_options(seed: int, slot: int, cfg: dict):
 
 def make_workload(seed: int, idx: int) -> dict:
     rng = gen.rng_for("C12-workload", seed, idx)
-    kind = ["ser-stream-frames", "ser-flat-frames", "parse-flat", "parse-grouped", "ser-sink-ns"][idx % 5]
-    integ = "generic" if (idx // 5) % 2 == 0 else "rdflib"
-    phys = [1, 2, 3][(idx // 10) % 3]
+    kind = ["ser-stream-frames", "ser-flat-frames", "parse-flat", "parse-grouped", "ser-sink-ns", "ser-lowlevel"][idx % 6]
+    integ = "generic" if (idx // 6) % 2 == 0 else "rdflib"
+    phys = [1, 2, 3][(idx // 12) % 3]
     if kind == "ser-flat-frames" and phys == 3:
         kind = "ser-stream-frames"
     arity = 3 if phys == 1 else 4
@@ -105,6 +105,26 @@ def open_workload(w: dict, seed: int):
         conv = T.stmt_to_generic if integ == "generic" else T.stmt_to_rdflib
         options = shared_options(seed, w["slot"] * 10 + w["cfg"]["physical"], w["cfg"])
         src = (conv(s) for s in w["stmts"])
+        if w["kind"] == "ser-lowlevel":
+            # the per-statement API: one output chunk per statement, so interleavings switch in the middle of a frame
+            stream = pj.make_stream({"integration": integ, "physical": w["cfg"]["physical"]}, options)
+
+            def lowlevel():
+                stream.enroll()
+                for st in w["stmts"]:
+                    native = conv(st)
+                    if w["cfg"]["physical"] == 1:
+                        fr = stream.triple(native)
+                        frames_ = [fr] if fr else []
+                    elif w["cfg"]["physical"] == 2:
+                        fr = stream.quad(native)
+                        frames_ = [fr] if fr else []
+                    else:
+                        frames_ = list(stream.graph(native[3], iter([native[:3]])))
+                    yield b"".join(f.SerializeToString(deterministic=True) for f in frames_)
+                fr = stream.flow.to_stream_frame()
+                yield fr.SerializeToString(deterministic=True) if fr else b""
+            return lowlevel()
         if w["kind"] == "ser-sink-ns":
             stream = pj.make_stream({"integration": integ, "physical": w["cfg"]["physical"]}, options)
             store = pj.generic_sink_of(w["stmts"], w["ns"]) if integ == "generic" else \
